@@ -219,7 +219,8 @@ func (hs *history) commit(k int) {
 }
 
 type snapEntry struct {
-	Key   string `json:"key"`
+	Key     string `json:"key"`
+	Decodes bool   `json:"value_decodes"`
 	ID    uint64 `json:"id"`
 	Typ   int    `json:"type"`
 	Token uint64 `json:"token"`
@@ -251,6 +252,7 @@ func (hs *history) reopen(burn int, regs []int) []snapEntry {
 		var ev wal.HydroEvent
 		se := snapEntry{Key: string(k), Typ: 99}
 		if err := json.Unmarshal(v, &ev); err == nil {
+			se.Decodes = true
 			se.ID = ev.ID
 			fmt.Sscanf(ev.Type, "t%d", &se.Typ)
 			se.Token, _ = strconv.ParseUint(string(ev.Item), 10, 64)
@@ -265,13 +267,67 @@ func (hs *history) reopen(burn int, regs []int) []snapEntry {
 	hs.open()
 	items := make([]string, len(snap))
 	for i, s := range snap {
-		items[i] = fmt.Sprintf("(%s, %s, %d%%N, %s)", cstr(s.Key), nn(s.ID), s.Typ, nn(s.Token))
+		if s.Decodes {
+			items[i] = fmt.Sprintf("(%s, Some (%s, %d%%N, %s))", cstr(s.Key), nn(s.ID), s.Typ, nn(s.Token))
+		} else {
+			items[i] = fmt.Sprintf("(%s, None)", cstr(s.Key))
+		}
 	}
 	hs.emit(fmt.Sprintf("(Reopen %d%%N %s)", burn, nList(regs)), "(ObsReopen "+vh.List(items)+")",
 		map[string]any{"op": "reopen", "burn": burn, "regs": regs, "snapshot": snap})
 	hs.stat["reopen"]++
 	hs.stat[fmt.Sprintf("burn>0=%v", burn > 0)]++
 	return snap
+}
+
+// foreign entries.  keysInert: the key is outside /events/ or does not parse as an event id, so any
+// value may sit there; keysParsable: a non-canonical spelling of an id (Recover would take a decodable
+// value there for an event), used with undecodable values only.
+var keysInert = []string{"/events/zz", "/events/", "/events/0000000000000000g", "/events/00000000000000000", "/eventsx", "/other/key", "a", "/events/-1", "/events/1ffffffffffffffff"}
+var keysParsable = []string{"/events/1", "/events/00000000000000001", "/events/000000000000002", "/events/A"}
+var garbage = []string{"", "{", "not json", "[1,2]", "\x00\x01"}
+
+// inject puts a foreign key into the closed file (Close; Lithium.Put; NewHydro with the same handlers).
+func (hs *history) inject(key string, value []byte, decodes bool, typ int, token uint64) {
+	if err := hs.h.Close(); err != nil {
+		hs.t.Fatalf("Close: %v", err)
+	}
+	l := kv.NewLithium()
+	if err := l.Open(hs.path, 0600, 5*time.Second); err != nil {
+		hs.t.Fatalf("Lithium.Open: %v", err)
+	}
+	if err := l.Put([]byte(key), value); err != nil {
+		hs.t.Fatalf("Lithium.Put: %v", err)
+	}
+	if err := l.Close(); err != nil {
+		hs.t.Fatalf("Lithium.Close: %v", err)
+	}
+	hs.open()
+	val := "None"
+	if decodes {
+		val = fmt.Sprintf("(Some (%d%%N, %s))", typ, nn(token))
+	}
+	hs.emit(fmt.Sprintf("(Inject (GoStr.s2l %s) %s)", cstr(key), val), "ObsInject",
+		map[string]any{"op": "inject", "key": key, "value": string(value), "value_decodes": decodes})
+	hs.stat["inject"]++
+	hs.stat[fmt.Sprintf("inject_decodable_value=%v", decodes)]++
+}
+
+func (hs *history) injectRandom(rng interface{ Intn(int) int }) {
+	key := keysInert[rng.Intn(len(keysInert))]
+	parsable := rng.Intn(3) == 0
+	if parsable {
+		key = keysParsable[rng.Intn(len(keysParsable))]
+	}
+	if !parsable && rng.Intn(2) == 0 {
+		// a well-formed event under a key Recover cannot use
+		typ, token := rng.Intn(ntypes), uint64(900000+rng.Intn(1000))
+		ev := wal.HydroEvent{ID: 7, Type: fmt.Sprintf("t%d", typ), Item: []byte(strconv.FormatUint(token, 10))}
+		bs, _ := ev.Encode()
+		hs.inject(key, bs, true, typ, token)
+		return
+	}
+	hs.inject(key, []byte(garbage[rng.Intn(len(garbage))]), false, 0, 0)
 }
 
 type callObs struct {
@@ -470,13 +526,15 @@ func runHistory(t *testing.T, r *vh.Run, dir string, idx int, regs []int, body s
 	r.Add(term, map[string]any{"initial_regs": initRegs, "steps": hs.desc}, tags, nontrivial)
 }
 
-func randomBody(r *vh.Run, nops int, concurrent bool) script {
+func randomBody(r *vh.Run, nops int, concurrent bool, inject bool) script {
 	return func(hs *history) {
 		rng := r.Rng
 		mustReopen := false
 		for i := 0; i < nops; i++ {
 			x := rng.Intn(100)
 			switch {
+			case !mustReopen && x >= 96 && inject:
+				hs.injectRandom(rng)
 			case mustReopen || x < 10:
 				burn := 0
 				if rng.Intn(3) == 0 {
@@ -599,6 +657,22 @@ func corpus() []script {
 			hs.recover(map[uint64]int{10: oHandleErr, 17: oNotNeeded, 33: oCheckErr})
 			hs.recover(nil)
 		},
+		// foreign and corrupt entries under /events/: skipped by Recover, never deleted, ids and replay unaffected
+		func(hs *history) {
+			hs.logOne(0, true)
+			hs.inject("/events/zz", []byte("not json"), false, 0, 0)
+			hs.inject("/events/1", []byte("{"), false, 0, 0) // another spelling of id 1, value does not decode
+			ev := wal.HydroEvent{ID: 7, Type: "t1", Item: []byte("900001")}
+			bs, _ := ev.Encode()
+			hs.inject("/events/0000000000000000g", bs, true, 1, 900001) // decodable value, key does not parse
+			hs.inject("/other/key", bs, true, 1, 900001)
+			hs.logOne(1, true)
+			hs.recover(map[uint64]int{1: oHandleErr})
+			hs.commit(1)
+			hs.reopen(1, all)
+			hs.logOne(2, true)
+			hs.recover(nil)
+		},
 		// many ids burnt: crosses 0xff
 		func(hs *history) {
 			hs.logOne(0, true)
@@ -632,8 +706,8 @@ func TestC16(t *testing.T) {
 	for i := 0; i < n; i++ {
 		nops := 5 + r.Rng.Intn(36)
 		conc := i%3 == 0
-		runHistory(t, r, dir, idx, subset(r.Rng, r.Rng.Intn(3) != 0), randomBody(r, nops, conc),
-			map[string]any{"kind": "random", "concurrent": conc})
+		runHistory(t, r, dir, idx, subset(r.Rng, r.Rng.Intn(3) != 0), randomBody(r, nops, conc, i%2 == 1),
+			map[string]any{"kind": "random", "concurrent": conc, "foreign_keys": i%2 == 1})
 		idx++
 	}
 	r.Finish("corpus (each handler outcome, commit/double commit, restart, crashed Log, missing handler, handler panic, >16 and >255 ids) then random histories of 5-40 operations over 4 event types on a real bbolt file: Log (incl. unknown type / Encode failure), Commit (incl. stale closures of a closed instance), close+reopen with 0-3 burnt sequence numbers and a random handler set, Recover with scripted per-event outcomes (ok, handle error, not needed, check error, decode error, panic), batches of 2-4 concurrent loggers linearised by the ids found in the file; every history ends with a scan of the file; non-trivial = at least one successful Log and one Recover")
